@@ -450,6 +450,15 @@ func c02Load(tc *c02Case, allowExternal bool) *c02Loaded {
 	if !strings.HasSuffix(tc.Entry, "_default") {
 		loader.ReadFromURIFunc = func(l *openapi3.Loader, u *url.URL) ([]byte, error) {
 			p := u.String()
+			if tc.Entry == "uri_remote" && u.Scheme == "https" && u.Host == "root.example" {
+				res.reads = append(res.reads, p)
+				return os.ReadFile(filepath.Join(dir, filepath.FromSlash(u.Path)))
+			}
+			if tc.Entry == "uri_remote" {
+				// any other location is recorded as asked for
+				res.reads = append(res.reads, strings.ReplaceAll(p, filepath.ToSlash(dir), "<T>"))
+				return openapi3.ReadFromFile(l, u)
+			}
 			if (u.Scheme == "" || u.Scheme == "file") && u.Host == "" {
 				p = u.Path
 				if !filepath.IsAbs(p) {
@@ -476,6 +485,11 @@ func c02Load(tc *c02Case, allowExternal bool) *c02Loaded {
 		os.Chdir(wd)
 	case "datapath":
 		res.doc, res.err = loader.LoadFromDataWithPath(rootBytes, &url.URL{Path: rootPath})
+	case "uri_remote":
+		wd, _ := os.Getwd()
+		os.Chdir(dir) // so that a location that lost its host would find the file
+		res.doc, res.err = loader.LoadFromURI(&url.URL{Scheme: "https", Host: "root.example", Path: "/r/openapi.json"})
+		os.Chdir(wd)
 	case "data":
 		res.doc, res.err = loader.LoadFromData(rootBytes)
 	default:
